@@ -275,14 +275,16 @@ class World:
         gc.collect()
 
     def check_dead(self, post):
-        """every entity the model let die must really be gone (otherwise an unmodelled strong edge)."""
+        """every entity the model let die (unreachable from the root and from held handles) must really be gone:
+        a removed entity that stays alive stays in the workspace listings (C05)."""
         names = self.ws.list_entities_name if self.ws._geoh5 else {}
         for s in getattr(self, "_dying", []):
             uid = self.slot2uid.get(s)
             if uid in names:
-                from .tlc import MachineryError
-                import weakref  # noqa
-                raise MachineryError(f"slot {s} should have been collected but its weak reference is alive")
+                self._dying = []
+                raise Divergence("removed-entity-still-alive",
+                                 f"slot {s} is unreachable from the root and from every handle the caller holds, but after "
+                                 f"gc.collect() it is still listed by the workspace", "C01,C05,C06")
         self._dying = []
 
     def reopen(self, mode):
@@ -533,7 +535,11 @@ def replay_path(item):
             if exp_out == "Geoh5FileClosedError" and out != exp_out:
                 bad("closed-call-wrong-error", f"call on a closed workspace raised {out}", "C11")
                 return viol
-            w.check_dead(post)
+            try:
+                w.check_dead(post)
+            except Divergence as d:
+                bad(d.sig, d.msg, d.prop)
+                return viol
             # ---- file
             snap = w.snap()
             got_f = w.project_file(snap)
